@@ -269,6 +269,8 @@ def normalise_expected(m, default_encoding='gsm0338'):
         enc_len = getattr(m, '_wire_len', None)
         if d['message_payload'] or (enc_len is not None and enc_len > 254):
             d['short_message'], d['message_payload'] = '', text
+        elif enc_len is None:
+            d['_either_field'] = text       # octet count unknown to the oracle: either field may carry the text
         # an explicitly named default alphabet reads back as automatic
         # (data_coding 0 = the configured default alphabet; it reads back as None when that is gsm0338
         #  and as the default's name otherwise - the same alphabet either way)
